@@ -370,9 +370,12 @@ func c19Awkward(rng *rand.Rand, kind string) string {
 	case "grouped":
 		return base + "type (\n\tA struct {\n\t\tName string `json:\"name\"` // @tag valid:\"required\"\n\t}\n\tB struct {\n\t\tAge int `json:\"age\"` // @tag valid:\"ge=0\"\n\t}\n)\n\nfunc f() {\n\ttype local struct {\n\t\tX int `json:\"x\"` // @tag valid:\"required\"\n\t}\n\t_ = local{}\n}\n\ntype Al = Inner\n\ntype G[T any] struct {\n\tV T `json:\"v\"` // @tag valid:\"required\"\n}\n\n" + good
 	case "interpreted-literal":
-		return base + "type A struct {\n\tName string \"json:\\\"name\\\"\" // @tag valid:\"required\"\n}\n\n" + good
+		// also combined with comments that mention @tag but carry no key:"value" pair
+		cm := []string{"@tag valid:\"required\"", "@tag required", "see the @tag docs for details", "@tag valid:required"}[rng.Intn(4)]
+		return base + "type A struct {\n\tName string \"json:\\\"name\\\"\" // " + cm + "\n}\n\n" + good
 	case "empty-literal":
-		return base + "type A struct {\n\tName string `` // @tag valid:\"required\"\n\tE struct{} // @tag valid:\"exist\"\n}\n\ntype Empty struct{}\n\n" + good
+		cm := []string{"@tag valid:\"required\"", "@tag required", "see the @tag docs for details", "@tag :\"x\""}[rng.Intn(4)]
+		return base + "type A struct {\n\tName string `` // " + cm + "\n\tE struct{} // @tag valid:\"exist\"\n}\n\ntype Empty struct{}\n\n" + good
 	}
 	return base + good
 }
